@@ -264,7 +264,19 @@ func (c *fctx) assignSpecial(e *emitter, ind int, st *ast.AssignStmt) bool {
 	if f, ok := obj.(*types.Func); ok && f.Pkg() != nil && f.Pkg().Path() == "io" && f.Name() == "ReadFull" && len(st.Lhs) == 2 {
 		dv, ok := c.viewOf(call.Args[1])
 		if !ok {
-			c.fail(st, "io.ReadFull into something that is not a view")
+			// a plain buffer variable, from a source that is a byte string (ends cleanly)
+			id, isId := ast.Unparen(call.Args[1]).(*ast.Ident)
+			if lt, _ := leanTypeOf(c.typeOf(call.Args[0])); !isId || lt != "(List UInt8)" {
+				c.fail(st, "io.ReadFull into something that is neither a view nor a variable")
+			}
+			bv := c.info().Uses[id].(*types.Var)
+			t := c.tmp()
+			e.add(ind, fmt.Sprintf("let %s := Go.io_ReadFullB %s (Go.len %s)", t, c.expr(call.Args[0]), c.nameOf(bv)))
+			c.assignTo(e, ind, call.Args[0], t+".2.2", false)
+			e.add(ind, fmt.Sprintf("%s := Go.writeAt %s (0 : Int) %s.1", c.nameOf(bv), c.nameOf(bv), t))
+			c.assignTo(e, ind, st.Lhs[0], "(Go.len "+t+".1)", define)
+			c.assignTo(e, ind, st.Lhs[1], t+".2.1", define)
+			return true
 		}
 		t := c.tmp()
 		e.add(ind, fmt.Sprintf("let %s := Go.io_ReadFull %s %s", t, c.expr(call.Args[0]), dv.length()))
